@@ -1,11 +1,37 @@
-import re
+import os, re, subprocess
 from checklib.c16 import pregen as _pregen_templates
+
+N_GENERIC = 13 * 4      # generic loop functions x parameter points (hcommon::templates_generic::GENERIC_TEMPLATES x N_VARIANTS)
+
+
+def _pregen(ctx):
+    """Regenerated layer of C06: the shared template trees (C16's pregen: Generated/Templates.lean) and
+    Generated/TemplatesGenericA.lean = the trees of the generic loop functions `heuristics::xx::xx::<P, identifier::A>`
+    with the evaluator identifier every component names (`c06 --generic-trees | drv_c06 --gen-generic`)."""
+    _pregen_templates(ctx)
+    lean, target = ctx["lean"], ctx["target"]
+    with ctx["Lock"](os.path.join(lean, ".lock")):
+        rc, out = ctx["sh"](["lake", "build", "drv_c06"], cwd=lean, timeout=3600)
+        if rc != 0:
+            raise RuntimeError("drv_c06 does not build: " + out[-400:])
+        trees = subprocess.run([os.path.join(target, "debug", "c06"), "--generic-trees"], capture_output=True, text=True, timeout=600)
+        if trees.returncode != 0:
+            raise RuntimeError("c06 --generic-trees failed: " + trees.stderr[-400:])
+        gen = subprocess.run([os.path.join(lean, ".lake", "build", "bin", "drv_c06"), "--gen-generic"], input=trees.stdout,
+                             capture_output=True, text=True, timeout=600)
+        if gen.returncode != 0 or gen.stdout.count("\ndef ") != N_GENERIC:
+            raise RuntimeError("generic tree translation failed: " + (gen.stderr or gen.stdout)[-400:])
+        path = os.path.join(lean, "MahfModel", "Generated", "TemplatesGenericA.lean")
+        old = open(path).read() if os.path.exists(path) else ""
+        if old != gen.stdout:
+            open(path, "w").write(gen.stdout)
+
 
 CONFIG = dict(
     bin="c06",
     drv="drv_c06",
-    lean_modules=["MahfModel.Props.C06", "MahfModel.Props.C06Templates"],
-    pregen=_pregen_templates,
+    lean_modules=["MahfModel.Props.C06", "MahfModel.Props.C06Templates", "MahfModel.Props.C06Generic"],
+    pregen=_pregen,
     namespaces=["MahfModel.Props.C06"],
     shrink_lists=["steps"],
     level="proof",
@@ -16,16 +42,23 @@ CONFIG = dict(
           "pre-evaluated and stale members, unregistered identifier => require error); (2) loops guarded by "
           "LessThanN::evaluations(n) for n<=24 (quick) / 60 (thorough) x pass sizes {1,2,3,5,7,12}; (2b) the firefly skeleton fa::fa::<P, I> with FireflyPositionsUpdate::<I> for a NON-Global identifier I, with only I registered and with a distinct Global evaluator (own probe) registered as well: the run must succeed, every call must go to I's evaluator and the reported count must equal its probe; (3) run level: every leaf "
           "step of runs of all 21 templates x 3 parameter points x 4 instances x seeds x {seq,par}: counter delta vs. objective "
-          "calls, and reported evaluations vs. total calls at the end. A case is non-trivial if it contains an evaluation step "
-          "(component level), a loop (budget) or is a template run; distinct = distinct canonical input."),
-    nontrivial=lambda inp: ("(eval " in inp) or inp.startswith("(budget") or inp.startswith("(run") or inp.startswith("(fa"),
+          "calls, and reported evaluations vs. total calls at the end; (4) the generic loop functions heuristics::xx::xx::<P, I> "
+          "(ga, es, de, pso, sa, ls, ils, rs, rw, iwo, fa, bh, cro; aco::aco cannot be built from outside the crate) instantiated with "
+          "the NON-Global identifier I = identifier::A as complete configurations (the shipped constructor's prefix and components, "
+          "with A) x 4 parameter points x 4 Sphere instances x seeds x {seq,par}: run on a state that holds ONLY Evaluator<P, A> "
+          "(must complete; per-leaf and total count as in (3)) and on a state that holds ONLY Evaluator<P, Global> (must fail with an "
+          "error before anything executes: no objective call, no component started). A case is non-trivial if it contains an "
+          "evaluation step (component level), a loop (budget) or is a template run; distinct = distinct canonical input."),
+    nontrivial=lambda inp: ("(eval " in inp) or inp.startswith("(budget") or inp.startswith("(run") or inp.startswith("(fa") or inp.startswith("(generic"),
     trusted_base=[
         "rayon scheduler not modelled (parallel call order compared as a multiset; schedule independence is C08)",
         "u32 counter overflow not modelled (counter is a Nat)",
         "Vec/slice primitives represented by list semantics",
         "step observer hook (cfg mahf_verif) in Block/Loop; harness classifies leaf steps by component type name"],
     assumptions=["SplitMix64-seeded generators; objective values from a grid incl. ties, negative values, +inf, denormals (no NaN, no -0.0)",
-                 "run level covers the 21 shipped templates on the shared test instances (Sphere/OneMax/TSP), iteration-bounded"],
+                 "run level covers the 21 shipped templates on the shared test instances (Sphere/OneMax/TSP), iteration-bounded",
+                 "generic loop functions are exercised with one non-Global identifier (identifier::A) on Sphere instances; "
+                 "aco::aco::<P, I> is not covered (aco::Parameters has only private fields and no constructor)"],
     level_text=("Lean 4 theorems over the PopMachine model: evaluate_step (same length/order/solutions, every member carries f(sol), "
                 "call log extended by exactly the population's solutions in order, counter += length), each_individual_called_once, "
                 "evaluate_empty_stack_noop, evaluator_missing_require_fails, evals_eq_calls for every sequence of modelled steps "
@@ -35,15 +68,31 @@ CONFIG = dict(
                 "property predicate on the implementation's outputs (O)."),
     level_note=("Trusted: Lean kernel; harness + driver printing; list semantics of Vec; rayon and u32 overflow not modelled. "
                 "partial: the run-level statement is proved for runs without a scope that shadows the counter; for ILS the full "
-                "statement is refuted (known finding, recorded). Template wiring is audited by running the templates, not by a "
-                "regenerated static analysis."),
+                "statement is refuted (known finding, recorded; the same for the generic ils::ils with identifier A). The "
+                "'uses only the requested evaluator' obligations cover the 13 generic loop functions that can be built from outside "
+                "the crate, at the 4 parameter points instantiated in this run and for the identifier A (not for all parameters / all "
+                "identifiers); which components apply an evaluator (PopulationEvaluator, FireflyPositionsUpdate) is declared "
+                "(callsObjective), validated by the audit stream; the identifier is read from the component's own serialisation "
+                "(PhantomId writes type_name::<I>()), so a component that serialised another identifier than it uses would escape the "
+                "static layer (not the runs with only Evaluator<P, A> registered)."),
 )
 
-CONFIG["level_text"] = CONFIG["level_text"] + " " + "Template level: a `counterExact` analysis over the component trees (no scope shadows the evaluation counter) is proved sound for every execution of an abstract interpreter, and the kernel re-evaluates it by `decide` on the trees of all 21 templates x 4 parameter points regenerated from the code's own Serialize output on every run (84 obligations; ILS = false, the recorded finding, with a concrete violating model execution)."
+CONFIG["level_text"] = CONFIG["level_text"] + " " + (
+    "Requested evaluator: a checker `usesOnlyTop w` over component trees that carry the evaluator identifier each component names "
+    "(every evaluation-performing component names w, every component is known, some evaluator is demanded by `require`) is proved "
+    "sound for every execution of an abstract interpreter of Configuration::run (uses_only_requested: every evaluator application of a "
+    "finished run is an application of w; other_evaluators_irrelevant: the run equals the run on a state holding only w; "
+    "requested_missing_fails_before_executing: without w the run is refused by `require`); on every run the trees of the 13 generic loop "
+    "functions instantiated with identifier::A x 4 parameter points are re-extracted from the code's own Serialize output and the kernel "
+    "re-checks `usesOnlyTop .A tree = true` and `counterExactTop (erase tree)` by `decide` (104 regenerated obligations; ils: counter "
+    "analysis false, the recorded finding), with the mixed-identifier shape as a concrete rejected model execution.") + " " + "Template level: a `counterExact` analysis over the component trees (no scope shadows the evaluation counter) is proved sound for every execution of an abstract interpreter, and the kernel re-evaluates it by `decide` on the trees of all 21 templates x 4 parameter points regenerated from the code's own Serialize output on every run (84 obligations; ILS = false, the recorded finding, with a concrete violating model execution)."
 
 # K-only stream: the component classes the template-level analysis relies on (Tpl.callsObjective / Tpl.eclass) are
 # compared with what every executed component of every template run was observed to do.
 CONFIG["extra"] = [dict(bin="c16", drv="drv_c16", args=["--audit"], head="audit")]
 CONFIG["trusted_base"] = CONFIG.get("trusted_base", []) + [
     "component classes of Model/TemplatesEval.lean (callsObjective, insertsCounter, eclass) are declared, not derived; "
-    "validated per executed step of all template runs by the audit stream (K)"]
+    "validated per executed step of all template runs by the audit stream (K)",
+    "generic-A configurations are assembled by the harness (harness/src/templates_generic.rs) from the same components and parameter "
+    "points as the shipped constructors; only the generic loop function itself is the code under test there",
+    "the evaluator identifier of a component is taken from its serialised form `(T Id (str <type name>))` (sertree + Tpl.idOf?)"]
